@@ -227,14 +227,60 @@ pub fn value_or_zero(f: &Flat, p: &str) -> Option<f64> {
 }
 
 /// absolute slack for numbers printed in a per-m2 report when two *different evaluations* are compared:
-/// half a unit of the last printed digit plus the rounding of hash-ordered accumulation under cancellation
+/// the rounding of hash-ordered accumulation under cancellation (reports_equal itself allows one unit of the last printed digit)
 pub fn report_slack(rf: &RefOut) -> f64 {
     let smax = rf.iter().filter(|(p, _)| p.starts_with("balance_m2.")).map(|(_, v)| v.s).filter(|s| s.is_finite()).fold(0.0f64, f64::max);
-    0.011 + 3e-6 * smax
+    3e-6 * smax
 }
 
 /// extra absolute band for a JSON path (leading '.' stripped) from the reference scales
 pub fn json_band(rf: &RefOut, path: &str) -> f64 {
     let p = path.trim_start_matches('.');
     rf.get(p).map(|v| if v.s.is_finite() { 3e-6 * v.s } else { f64::INFINITY }).unwrap_or(0.0)
+}
+
+/// The plain report prepared for comparison between two evaluations: when the total primary energy is
+/// rounding noise of its own terms the RER lines are noise as well and are left out.
+pub fn comparable_report(text: &str, rf: &RefOut) -> String {
+    let noisy = rf.get("rer").map(|v| !(v.s < 0.004)).unwrap_or(false) || rf.get("rer_nrb").map(|v| !(v.s < 0.004)).unwrap_or(false);
+    text.lines().filter(|l| !(noisy && (l.starts_with("RER = ") || l.starts_with("RER_nrb = ")))).collect::<Vec<_>>().join("\n")
+}
+
+/// Rounding noise of the DHW renewable fraction: it is a ratio whose numerator contains f32 differences
+/// of electricity sums (auxiliaries discounted from the DHW electricity use) and whose denominator is the
+/// declared demand, so when the demand is small against the energies involved the noise is amplified.
+/// Returns (annual declared DHW demand, absolute noise band of the fraction).
+pub fn dhw_noise_band(spec: &Spec) -> (f64, f64) {
+    use crate::spec::Line;
+    let mut dem = 0.0f64;
+    let mut mag = 0.0f64;
+    for l in &spec.lines {
+        let a: f64 = l.values().iter().map(|x| x.abs() as f64).sum();
+        match l {
+            Line::Need { srv, .. } if srv == "ACS" => dem += l.values().iter().map(|x| *x as f64).sum::<f64>(),
+            Line::Used { srv, cr, .. } if srv == "ACS" || cr == "ELECTRICIDAD" => mag += a,
+            Line::Aux { .. } => mag += a,
+            Line::Prod { src, .. } if src.starts_with("EL_") => mag += a,
+            Line::Out { srv, .. } if srv == "ACS" => mag += a,
+            _ => {}
+        }
+    }
+    let band = if dem.abs() > 0.0 { 3e-6 * mag / dem.abs() } else { f64::INFINITY };
+    (dem, band)
+}
+
+/// true when the annual DHW use of electricity (beyond auxiliaries) and of ambient heat are clear of the
+/// library's absolute 0.01 kWh guards (zero, or at least 0.05 kWh), for the spec and for the spec scaled by c
+pub fn dhw_guards_clear(spec: &Spec, c: f32) -> bool {
+    use crate::spec::Line;
+    for cr in ["ELECTRICIDAD", "EAMBIENTE"] {
+        let v: f64 = spec.lines.iter().filter_map(|l| match l { Line::Used { srv, cr: lcr, v, .. } if srv == "ACS" && lcr == cr => Some(v.iter().map(|x| *x as f64).sum::<f64>()), _ => None }).sum();
+        for k in [1.0, c as f64] {
+            let x = v * k;
+            if x != 0.0 && x < 0.05 {
+                return false;
+            }
+        }
+    }
+    true
 }
